@@ -1,13 +1,22 @@
 #!/bin/bash
-# run_all_seeds.sh [pattern]: applies every stored seeded change to /repo in turn, runs the quick check of its property, undoes it,
-# and prints one line per seed (CAUGHT / MISSED). /repo must be clean. Takes about 40 s per seed.
+# run_all_seeds.sh [pattern]: applies every stored seeded change in turn to a scratch worktree of /repo HEAD (never to /repo itself: other
+# jobs read it), runs the quick check of its property against that worktree (VERIF_REPO), and prints one line per seed (CAUGHT / MISSED).
+# Takes about 40 s per seed. Afterwards the translator properties are re-run against /repo so that coq/Generated/ and evidence/ describe /repo.
 cd /verif
-git -C /repo diff --quiet || { echo "/repo dirty"; exit 2; }
+WT=/var/tmp/seedtry-wt
+git -C /repo worktree remove --force $WT >/dev/null 2>&1; rm -rf $WT
+git -C /repo worktree add --detach $WT HEAD >/dev/null 2>&1 || { echo "cannot create worktree"; exit 2; }
+git -C /repo diff --quiet || (cd /repo && git diff HEAD | git -C $WT apply)   # carry an uncommitted fix under test
+base=$(git -C $WT diff HEAD | sha1sum)
+touched=""
 for d in seeded/${1:-*}/; do
   n=$(basename $d); p=${n%%-*}
-  git -C /repo apply /verif/$d/patch.diff 2>/dev/null || { echo "$n: PATCH DOES NOT APPLY"; continue; }
-  out=$(./check $p quick 2>&1 | grep -E "^VIOLATION|^OK" | head -3 | tr '\n' ' ')
-  git -C /repo checkout -- . ; git -C /repo clean -fdq -- x app 2>/dev/null
+  git -C $WT apply /verif/$d/patch.diff 2>/dev/null || { echo "$n: PATCH DOES NOT APPLY"; continue; }
+  out=$(VERIF_REPO=$WT ./check $p ${TIER:-quick} 2>&1 | grep -E "^VIOLATION|^OK" | head -3 | tr '\n' ' ')
+  git -C $WT apply -R /verif/$d/patch.diff; git -C $WT clean -fdq -- x app 2>/dev/null
+  [ "$(git -C $WT diff HEAD | sha1sum)" = "$base" ] || { echo "worktree not restored after $n"; exit 2; }
   case "$out" in *VIOLATION*) echo "$n: CAUGHT  ${out:0:160}";; *) echo "$n: MISSED  $out";; esac
+  touched="$touched $p"
 done
-for p in C15 C17 C18 C19; do ./check $p quick >/dev/null 2>&1; done   # regenerate translator tables from the clean tree
+git -C /repo worktree remove --force $WT
+for p in $(echo $touched | tr ' ' '\n' | sort -u); do ./check $p quick >/dev/null 2>&1; done   # evidence and generated tables from /repo again
